@@ -82,6 +82,10 @@ def ret_expr(block):
     return kids(r[0])[0] if r and kids(r[0]) else None
 
 
+def _ancestors(fm, n):
+    return list(tbf.ancestors(n))
+
+
 def repetition_formulas(facts, cls, res):
     R = "C10.1.interval-count"
     cnt = [m for m in facts.methods_of(cls) if m["name"] == "GetNbRepetitionsPerDim"]
@@ -116,8 +120,18 @@ def repetition_formulas(facts, cls, res):
     tot = [m for m in facts.methods_of(cls) if m["name"] == "getNbTotalRepetitions"]
     if len(tot) != 1:
         raise AnalysisBroken("%s::getNbTotalRepetitions not found" % cls)
-    t = facts.ntext(tbf.body(tot[0]))
-    okt = "getNbRepetitionsPerDim()" in t and "totalRepeats*=nbRepeatInOneDim" in t and "idxDim<Dim" in t and "totalRepeats=1" in t
+    fmt_ = stages.FnModel(facts, tot[0])
+    okt = False
+    for x in walk(fmt_.body):
+        if x.get("k") == "CompoundAssignOperator" and x.get("op") == "*=":
+            acc = strip(kids(x)[0])
+            factor = fmt_.origin(kids(x)[1])
+            accd = fmt_.decls.get(acc.get("did"))
+            init1 = accd is not None and kids(accd) and strip(kids(accd)[0]).get("val") == 1
+            inloop = any(a.get("k") == "ForStmt" and facts.ntext(a["c"][1]).endswith("<Dim") for a in _ancestors(fmt_, x))
+            rets = [r for r in walk(fmt_.body) if r.get("k") == "ReturnStmt" and kids(r) and strip(kids(r)[0]).get("did") == acc.get("did")]
+            if init1 and inloop and rets and "getNbRepetitionsPerDim()" in factor:
+                okt = True
     res.instance(R, "%s total" % cls, facts.loc(tot[0]), "product over Dim of the per-dimension count: %s" % okt)
     if not okt:
         res.violation(R, tbf.rel(facts.path_of(tot[0])), tot[0]["qname"], "total", tot[0]["l"][1], "total repetitions is not the per-dimension count to the power Dim")
